@@ -382,28 +382,52 @@ func widthFor(t *rapid.T, cfg TreeCfg) int {
 	return drawInt(t, 1, cfg.MaxWidth, "w")
 }
 
+// genLongList: a long list of cheap scalars (lengths around powers of two and multiples of small block
+// sizes); when there is depth left, half of them also hold 2-4 containers at drawn positions, one of which
+// may again be such a long list (bulk paths that treat the nested containers of long lists separately).
+func genLongList(t *rapid.T, cfg TreeCfg, depth int) V {
+	n := []int{60, 63, 64, 65, 66, 67, 96, 100, 127, 128, 129, 130, 255, 256, 257, 258, 259, 32, 33, 40}[drawIdx(t, 20, "longn")]
+	if oneIn(t, 12, "hugelist") {
+		n = []int{1023, 1024, 1025, 2049, 4097}[drawIdx(t, 5, "hugen")]
+	}
+	out := V{K: KList, L: make([]V, 0, n)}
+	for i := 0; i < n; i++ {
+		switch drawInt(t, 0, 3, "lk") {
+		case 0:
+			out.L = append(out.L, VInt(drawInt(t, -3, 3, "li")))
+		case 1:
+			out.L = append(out.L, VStr(smallStrings[drawIdx(t, len(smallStrings), "ls")]))
+		case 2:
+			out.L = append(out.L, VFloat(float64(drawInt(t, -4, 4, "lf"))/2))
+		default:
+			out.L = append(out.L, VInt(i))
+		}
+	}
+	if depth > 1 && n <= 300 && drawBool(t, "sprinkle") {
+		sub := cfg
+		sub.LongLists = false
+		for i, k := 0, drawInt(t, 2, 4, "nsprinkle"); i < k; i++ {
+			pos := drawIdx(t, n, "spos")
+			if i == 0 {
+				pos = drawInt(t, 0, 5, "spos0") // one of them early, so that others follow it
+			}
+			switch {
+			case depth > 2 && oneIn(t, 3, "nestlong"):
+				out.L[pos] = genLongList(t, cfg, depth-1)
+			case drawBool(t, "slist"):
+				out.L[pos] = GenListV(t, sub, 1+drawInt(t, 0, 1, "sd"))
+			default:
+				out.L[pos] = GenObjectV(t, sub, 1+drawInt(t, 0, 1, "sd"))
+			}
+		}
+	}
+	return out
+}
+
 // GenListV draws a list node (depth counts container levels available).
 func GenListV(t *rapid.T, cfg TreeCfg, depth int) V {
 	if cfg.LongLists && oneIn(t, 40, "longlist") {
-		// a long list of cheap scalars: lengths around powers of two and multiples of small block sizes
-		n := []int{60, 63, 64, 65, 66, 67, 96, 100, 127, 128, 129, 130, 255, 256, 257, 258, 259}[drawIdx(t, 17, "longn")]
-		if oneIn(t, 12, "hugelist") {
-			n = []int{1023, 1024, 1025, 2049, 4097}[drawIdx(t, 5, "hugen")]
-		}
-		out := V{K: KList, L: make([]V, 0, n)}
-		for i := 0; i < n; i++ {
-			switch drawInt(t, 0, 3, "lk") {
-			case 0:
-				out.L = append(out.L, VInt(drawInt(t, -3, 3, "li")))
-			case 1:
-				out.L = append(out.L, VStr(smallStrings[drawIdx(t, len(smallStrings), "ls")]))
-			case 2:
-				out.L = append(out.L, VFloat(float64(drawInt(t, -4, 4, "lf"))/2))
-			default:
-				out.L = append(out.L, VInt(i))
-			}
-		}
-		return out
+		return genLongList(t, cfg, depth)
 	}
 	if oneIn(t, 12, "repeated") {
 		// 2-8 scalars over an alphabet of two values: some construction routes share one
@@ -452,6 +476,18 @@ func GenObjectV(t *rapid.T, cfg TreeCfg, depth int) V {
 				v = VNil()
 			}
 			out.O = append(out.O, Pair{"key" + strconv.Itoa(i), v})
+		}
+		if depth > 1 && drawBool(t, "sprinkle") {
+			sub := cfg
+			sub.LongLists = false
+			for i, k := 0, drawInt(t, 2, 4, "nsprinkle"); i < k; i++ {
+				pos := drawIdx(t, n, "spos")
+				if drawBool(t, "slist") {
+					out.O[pos].V = GenListV(t, sub, 1)
+				} else {
+					out.O[pos].V = GenObjectV(t, sub, 1)
+				}
+			}
 		}
 		return out
 	}
